@@ -75,8 +75,16 @@ def dedupSorted : List K → List K
   | [a] => [a]
   | a :: b :: rest => if a = b then dedupSorted (b :: rest) else a :: dedupSorted (b :: rest)
 
-/-- `numpy.unique`. -/
-def unique (l : List K) : List K := dedupSorted (l.mergeSort (fun a b => decide (a ≤ b)))
+/-- insertion into an ascending list (before the first element that is not smaller). -/
+def insertSorted (a : K) : List K → List K
+  | [] => [a]
+  | b :: l => if a ≤ b then a :: b :: l else b :: insertSorted a l
+
+/-- ascending sort (insertion sort: structural recursion, so that closed instances evaluate in the kernel). -/
+def sortK (l : List K) : List K := l.foldr insertSorted []
+
+/-- `numpy.unique`: sort, then drop equal neighbours. -/
+def unique (l : List K) : List K := dedupSorted (sortK l)
 
 def sumV (l : List (V3 K)) : V3 K := l.foldl (· + ·) zero3
 
